@@ -205,7 +205,7 @@ func (g *Gen) Keys(max int) []*ACid {
 
 // Op draws one operation.
 func (g *Gen) Op() *Op {
-	op := &Op{Faults: g.faults(), Path: g.R.Intn(3)}
+	op := &Op{Faults: g.faults(), Path: g.R.Intn(NPaths)}
 	hostile := g.R.Intn(100) < g.P.HostileBias
 	op.On1 = g.Answer1(g.R.Int63(), hostile)
 	op.OnN = g.AnswerN(g.R.Int63(), hostile)
